@@ -15,3 +15,9 @@ pub use self::core::*;
 pub use self::error::*;
 pub use self::expr::types::*;
 pub use self::parser::*;
+
+/// Verification hooks: exposes the private input layer. Compiled only with `--cfg rusty_basic_verif`.
+#[cfg(rusty_basic_verif)]
+pub mod verif {
+    pub use crate::input::*;
+}
